@@ -19,6 +19,8 @@ Model: `Yarel/Model/Iter.lean` (vocabulary at its end: `Denotes`, `YieldsThenSto
 import Yarel.Proofs.IterBase
 import Yarel.Proofs.IterOps
 import Yarel.Proofs.IterHeap
+import Yarel.Model.IterObj
+import Yarel.Gen.CoreLib
 namespace Yarel.Iter
 open Yarel.Index (Outcome Site)
 open Yarel.F64 (isizeMin isizeMax)
@@ -428,5 +430,88 @@ example :
     ((Heap.nextN inj h2 0 2).bind fun r1 => (Heap.nextN inj r1.1 1 4).bind fun r2 =>
       (Heap.nextN inj r2.1 0 2).bind fun r3 => .ok (r1.2, r2.2, r3.2))
       = .ok ([.val 5, .val 6], [.val 5, .val 6, .val 7, .stop], [.val 7, .stop]) := by decide
+
+/-! ## 6. Objects deriving `Iter`: the adapters start from what `iter()` answers
+
+`Yarel/Model/IterObj.lean`. -/
+
+/-- The methods of `StopIter`, `Iter`, `MapIter`, `FilterIter` in /repo/yarel/src/core.yl (regenerated into
+`Yarel.Gen.coreLibMethods` on every run) are, token for token, the text the model transcribes. -/
+theorem core_lib_transcribed :
+    Yarel.Gen.coreLibMethods.filter (fun m => iterClasses.contains m.1) = transcribed := by decide +kernel
+#print axioms core_lib_transcribed
+
+/-- Whatever state the object `o` itself is in (fresh, half consumed by a loop that was left with `break`,
+exhausted, or not an iterator at all): if `o.iter()` answers an iterator denoting `ys` and leaves the world
+alone, then `for`, `collect`, `reduce`, `map`, `filter` and their compositions applied TO `o` produce what the
+same operations produce on the model sequence `ys`. -/
+theorem obj_chain_spec {σ W α β : Type} (P : Proto σ W α) (o it : σ) (w : W) (ys : List (Item α))
+    (hi : P.iterM o w = .ok (it, w)) (h : YieldsThenStop P.next it ys)
+    (f : α → Item α) (p : α → Bool) (g : β → Item α → β) (init : β) (fuel : Nat) (hF : ys.length < fuel) :
+    (∃ e, P.collectObj fuel o w = .ok (e, w, cut ys)) ∧
+    (∃ e, P.reduceObj (fun b => pureFn (g b)) init fuel o w = .ok (e, w, (cut ys).foldl g init)) ∧
+    (∃ e, andThen (P.mapObj (pureFn f) o w).1 ((P.mapObj (pureFn f) o w).2.collectObj fuel)
+        = .ok (e, w, cut (ys.map (mapItem f)))) ∧
+    (∃ e, andThen (P.filterObj (pureFn p) fuel o w).1 ((P.filterObj (pureFn p) fuel o w).2.collectObj fuel)
+        = .ok (e, w, cut (ys.filter (keepItem p)))) ∧
+    (∃ e, andThen (P.filterObj (pureFn p) fuel o w).1
+        (fun s w1 => andThen (((P.filterObj (pureFn p) fuel o w).2).mapObj (pureFn f) s w1).1
+          ((((P.filterObj (pureFn p) fuel o w).2).mapObj (pureFn f) s w1).2.reduceObj (fun b => pureFn (g b)) init fuel))
+        = .ok (e, w, (cut ((ys.filter (keepItem p)).map (mapItem f))).foldl g init)) := by
+  obtain ⟨h1, h2, h3, h4, _, h6⟩ := chain_spec P.next it ys h f p g init fuel hF w
+  refine ⟨?_, ?_, ?_, ?_, ?_⟩
+  · simpa only [Proto.collectObj, hi] using h1
+  · simpa only [Proto.reduceObj, hi] using h4
+  · simpa only [Proto.mapObj, Proto.ofStep, Proto.collectObj, andThen, hi] using h2
+  · simpa only [Proto.filterObj, Proto.ofStep, Proto.collectObj, andThen, hi] using h3
+  · simpa only [Proto.filterObj, Proto.mapObj, Proto.ofStep, Proto.reduceObj, andThen, hi] using h6
+#print axioms obj_chain_spec
+
+/-- A `for` loop over the object does what the loop over the model sequence does (`loopSpec`). -/
+theorem obj_for_spec {σ W α : Type} (P : Proto σ W α) (o it : σ) (w : W) (xs : List (Item α)) (body : Body W α)
+    (hi : P.iterM o w = .ok (it, w)) (h : YieldsThenStop P.next it xs) (fuel : Nat) (hF : xs.length < fuel) :
+    omap LoopEnd.obs (P.forObj body fuel o w) = loopSpec body xs w := by
+  simp only [Proto.forObj, hi]
+  exact (for_loop_spec P.next body xs it h fuel w hF).1
+#print axioms obj_for_spec
+
+/-- The restartable `Counter` of the model file denotes `1..max` from ANY position, because `iter()` rewinds it. -/
+theorem counter_denotes (max pos : Nat) :
+    (counterProto max).iterM pos () = .ok (0, ()) ∧
+    YieldsThenStop (counterProto max).next 0 ((List.range max).map fun i => Item.val (Int.ofNat (i + 1))) := by
+  refine ⟨rfl, max, max, ?_, ?_⟩
+  · suffices H : ∀ (n k : Nat), k + n = max →
+        Yields (counterProto max).next k ((List.range' k n).map fun i => Item.val (Int.ofNat (i + 1))) max by
+      simpa [List.range_eq_range'] using H max 0 (by omega)
+    intro n
+    induction n with
+    | zero => intro k hk; simp [Yields]; omega
+    | succ n ih =>
+      intro k hk
+      simp only [List.range'_succ, List.map_cons, Yields]
+      refine ⟨k + 1, ?_, ih (k + 1) (by omega)⟩
+      intro w
+      have hne : ¬ k = max := by omega
+      simp [counterProto, hne]
+  · intro w; simp [counterProto]
+#print axioms counter_denotes
+
+/-- Non-vacuity, and why the `iter()` call matters: a `Counter(6)` left at position 3 by a broken loop.
+`c.filter(even).collect()` is `[2, 4, 6]`; had `filter` wrapped `self` instead of `self.iter()` it would be `[4, 6]`.
+A `Bag` over `[1, 2, 3, 4, 5]`: `b.filter(|x| x > 2).collect()` is `[3, 4, 5]`; without the `iter()` call it is an
+AttributeError (a `Bag` has no `next`). -/
+example :
+    let P := counterProto 6
+    omap (fun r => r.2.2) (andThen (P.filterObj (pureFn fun a => a % 2 == 0) 7 3 ()).1
+      ((P.filterObj (pureFn fun a => a % 2 == 0) 7 3 ()).2.collectObj 7)) = .ok [.val 2, .val 4, .val 6] ∧
+    omap (fun r => r.2.2) (andThen (P.filterObjNoIter (pureFn fun a => a % 2 == 0) 7 3 ()).1
+      ((P.filterObjNoIter (pureFn fun a => a % 2 == 0) 7 3 ()).2.collectObj 7)) = .ok [.val 4, .val 6] := by decide
+example :
+    let P := bagProto [[.val 1, .val 2, .val 3, .val 4, .val 5]]
+    omap (fun r => r.2.2) (andThen (P.filterObj (pureFn fun a => decide (a > 2)) 6 none ()).1
+      ((P.filterObj (pureFn fun a => decide (a > 2)) 6 none ()).2.collectObj 6)) = .ok [.val 3, .val 4, .val 5] ∧
+    omap (fun r => r.2.2) (andThen (P.filterObjNoIter (pureFn fun a => decide (a > 2)) 6 none ()).1
+      ((P.filterObjNoIter (pureFn fun a => decide (a > 2)) 6 none ()).2.collectObj 6))
+      = .err ⟨.AttributeError, .undefinedProperty⟩ := by decide
 
 end Yarel.Iter
